@@ -7,7 +7,7 @@ import torch
 from . import qops, wq
 
 EVIDENCE = dict(
-    bounds="one inductive step from an ARBITRARY valid pre-state (all int8 codes / all non-NaN float8 codes, any positive finite scale, per-tensor and per-axis, 2/4-bit tensors from arbitrary codes/scales/zero-points) for every operation of the dispatch tables of the current source (read at run time; an op without an invocation in the catalogue is reported) plus a fixed pass-through list; shapes (2,3), (2,2), (4,), (2,2,3), contiguous (quick) and transposed (thorough); second operands: same scale / different scale / plain / scalar; float16 and float32; depth-2 and depth-3 compositions over a 12-op alphabet in the thorough tier",
+    bounds="one inductive step from an ARBITRARY valid pre-state (all int8 codes / all non-NaN float8 codes, any positive finite scale, per-tensor and per-axis, 2/4-bit tensors from arbitrary codes/scales/zero-points) for every operation of the dispatch tables of the current source (read at run time; an op without an invocation in the catalogue is reported) plus a fixed pass-through list; shapes (2,3), (2,2), (4,), (2,2,3), contiguous (quick) and transposed (thorough); second operands: same scale / different scale / plain / scalar; float16 and float32; depth-2 and depth-3 compositions over a 12-op alphabet in the thorough tier; the catalogue includes aliasing programs (view, in-place write to the base, read the view), in-place pass-through operations, negative-dim narrow, cross-dtype copy_, flatten/unflatten; recorded tensor-to-bool branches are flipped by the solver",
     outside="programs of depth > 3 are covered only through the inductive argument (every result is checked to be a valid state by C06); contractions are value-checked by C07 (here: refusal, shape, dtype, support); CUDA/MPS branches",
     assumptions=[
         "data-moving and fall-back ops: ALG term identity with the same API call on the dequantized operands",
